@@ -9,6 +9,7 @@ import (
 
 	"hop.computer/hop/certs"
 	"hop.computer/hop/common"
+	"hop.computer/hop/pkg/verifhook"
 )
 
 // Handle implements net.Conn and MsgConn for connections accepted by a Server.
@@ -159,6 +160,7 @@ func (c *Handle) Write(buf []byte) (int, error) {
 }
 
 func (c *Handle) send(msgType MessageType, b []byte) error {
+	verifhook.At("transport.Handle.send.enter")
 	// Preserve packet write order without holding the session lock during
 	// socket I/O. Close only needs the session lock, so a blocked write cannot
 	// prevent it from completing.
